@@ -22,7 +22,11 @@ type SGenCfg struct {
 	FillPct    int  // percent of programs that begin by writing the whole volume
 }
 
-func genOutcomes(t *rapid.T, nodes int, cfg SGenCfg, slowLeft *int) []Outcome {
+// faultBudget: how many stalls (each costs the stall time) and connection drops
+// (cheap, but each ends with a replica detached) a program may still contain.
+type faultBudget struct{ slow, drop int }
+
+func genOutcomes(t *rapid.T, nodes int, cfg SGenCfg, slowLeft *faultBudget) []Outcome {
 	out := make([]Outcome, nodes)
 	if rapid.IntRange(0, 99).Draw(t, "faulty") >= cfg.FaultPct {
 		return nil
@@ -51,9 +55,17 @@ func genOutcomes(t *rapid.T, nodes int, cfg SGenCfg, slowLeft *int) []Outcome {
 		if rapid.IntRange(0, 2).Draw(t, "diskerr") == 0 {
 			o = DISKERR // (for a write: the replica's own disk write fails; otherwise like ERR)
 		}
-		if cfg.SlowFaults && *slowLeft > 0 && rapid.IntRange(0, 3).Draw(t, "slow") == 0 {
+		if cfg.SlowFaults && slowLeft.slow > 0 && rapid.IntRange(0, 3).Draw(t, "slow") == 0 {
 			o = rapid.SampledFrom([]Outcome{STALL, DROP}).Draw(t, "slowkind")
-			*slowLeft--
+			slowLeft.slow--
+		} else if cfg.SlowFaults && slowLeft.drop > 0 && rapid.IntRange(0, 4).Draw(t, "drop") == 0 {
+			// the connection breaks while the request is in flight: no reply at all
+			o = DROP
+			slowLeft.drop--
+			if slowLeft.slow > 0 && rapid.Bool().Draw(t, "dropwait") {
+				o = DROPWAIT // (costs 2 s: counted as a slow fault)
+				slowLeft.slow--
+			}
 		}
 		out[j] = o
 	}
@@ -87,7 +99,7 @@ func GenSProgram(t *rapid.T, cfg SGenCfg) SProgram {
 		p.RegAll = rapid.Bool().Draw(t, "regall")
 	}
 	nops := rapid.IntRange(cfg.MinOps, cfg.MaxOps).Draw(t, "nops")
-	slowLeft := cfg.MaxSlow
+	slowLeft := faultBudget{slow: cfg.MaxSlow, drop: 3}
 	total := int64(blocks) * 8
 	if cfg.FillPct > 0 && rapid.IntRange(0, 99).Draw(t, "fill") < cfg.FillPct {
 		p.Ops = append(p.Ops, SOp{K: "write", Off: 0, Len: total, Seed: rapid.IntRange(1, 250).Draw(t, "fillseed")})
